@@ -396,10 +396,7 @@ def run(chk):
     # ---- (R) ------------------------------------------------------------------------------------
     graphs = gen_payloads(results["pack"])
     pack_traces = run_pack_replay(chk, graphs)
-    rej, _x, _r = judge_parallel(chk, "Trace_C06", [{k: v for k, v in t.items() if k != "label"} for t in pack_traces], "Trace_C06 pack", per=3000)
-    # map back through position: judge_parallel keyed by object identity of the stripped dicts, so re-judge mapping by content
-    for _k, (t, clause) in rej.items():
-        t.setdefault("label", "")
+    rej, _x, _r = judge_parallel(chk, "Trace_C06", pack_traces, "Trace_C06 pack", per=3000)
     report_simple(chk, rej, "pack")
     chk.traces_validated += len(pack_traces) - len(rej)
     states = []
